@@ -948,7 +948,47 @@ def _cmp_decide(n, dkey, v, consts=None):
     return None
 
 
-def edpe_blocks(f, dkey, v, extra_decide=None, start=None, blocked=(), edges_out=None):
+_helper_truth_cache = {}
+_helper_truth_busy = set()
+
+
+def _helper_truth(h, pname, v):
+    """Truth value returned by helper h when its parameter pname == v, if every return statement reachable for that value
+    (EDPE inside h) yields the same decided truth value; else None.  h must not reassign the parameter."""
+    k = (id(h), pname, v)
+    if k in _helper_truth_cache:
+        return _helper_truth_cache[k]
+    if (id(h), pname) in _helper_truth_busy:
+        return None
+    if pname in assigned_keys(h):
+        _helper_truth_cache[k] = None
+        return None
+    _helper_truth_busy.add((id(h), pname))
+    try:
+        captured = []
+        blocks = edpe_blocks(h, pname, v, extra_decide=lambda t: None, decide_out=captured)
+        dec = captured[0]
+        vals = set()
+        for n in block_nodes(h, blocks):
+            if n["k"] == "ReturnStmt":
+                if not n.get("c") or n["c"][0] is None:
+                    vals.add(None)
+                    continue
+                cv = const_value(n["c"][0])
+                if cv is not None:
+                    vals.add(bool(cv))
+                else:
+                    vals.add(dec(n["c"][0]))
+        res = None
+        if vals and None not in vals and len(vals) == 1:
+            res = vals.pop()
+    finally:
+        _helper_truth_busy.discard((id(h), pname))
+    _helper_truth_cache[k] = res
+    return res
+
+
+def edpe_blocks(f, dkey, v, extra_decide=None, start=None, blocked=(), edges_out=None, decide_out=None):
     """Blocks of f reachable when every branch on `dkey` is decided for value v.
     Branches on anything else are explored both ways.  dkey is a key() string such
     as 't->type'.  Sound over-approximation provided dkey is not reassigned on the
@@ -997,7 +1037,18 @@ def edpe_blocks(f, dkey, v, extra_decide=None, start=None, blocked=(), edges_out
         d = _cmp_decide(t, aliases, v)
         if d is not None:
             return d
+        if t["k"] == "CallExpr" and t.get("callee") and depth < 6:
+            # predicate helper of the same unit applied to the dispatch value: `is_header_type(t->type)`
+            h = f.unit.funcs.get(t["callee"]) if getattr(f, "unit", None) is not None else None
+            if h is not None and h is not f:
+                hit = [i for i, a in enumerate(t["c"][1:]) if key(a) in aliases]
+                if len(hit) == 1 and hit[0] < len(h.params):
+                    d = _helper_truth(h, h.params[hit[0]][0], v)
+                    if d is not None:
+                        return d
         return _u(tested) if _u is not None else None
+    if decide_out is not None:
+        decide_out.append(extra_decide)
     seen = set()
     st = [cfg.entry if start is None else start]
     while st:
@@ -1104,4 +1155,63 @@ def assigned_keys(f):
             out.add(key(n["c"][0]))
         elif k == "UnaryOperator" and n["op"] == "&":
             out.add(key(n["c"][0]))
+    return out
+
+
+def reaching_defs(f, name, at):
+    """Right-hand sides of the plain assignments / initialisers of local `name` that can reach statement `at` with no other
+    definition of it in between (CFG reachability).  None when the local is also changed in another way (op=, ++, its address
+    taken) or when `at` has no CFG position."""
+    pos = f.cfg.positions()
+
+    def stmt_of(n):
+        z = n
+        while z is not None and z.get("i") not in pos:
+            z = f.parent(z)
+        return z
+    defs = []
+    for x in f.walk():
+        k = x["k"]
+        if k == "BinaryOperator" and x["op"] == "=" and key(x["c"][0]) == name:
+            defs.append((x, x["c"][1]))
+        elif k == "VarDecl" and x.get("n") == name and x.get("c") and x["c"][0] is not None:
+            defs.append((x, x["c"][0]))
+        elif k == "CompoundAssignOperator" and key(x["c"][0]) == name:
+            return None
+        elif k == "UnaryOperator" and x["op"] in ("post++", "post--", "pre++", "pre--", "&") and key(x["c"][0]) == name:
+            return None
+    sa = stmt_of(at)
+    if sa is None:
+        return None
+    bb, bi = pos[sa["i"]]
+    where = []
+    for d, rhs in defs:
+        sd = stmt_of(d)
+        if sd is None:
+            return None
+        where.append((pos[sd["i"]], rhs))
+    cut = {}
+    for (b, i), _ in where:
+        cut.setdefault(b, []).append(i)
+    out = []
+    for (ab, ai), rhs in where:
+        ok = False
+        if ab == bb and ai < bi and not any(ai < ci < bi for ci in cut[ab]):
+            ok = True
+        elif not any(ci > ai for ci in cut[ab]):
+            seen, st = set(), list(f.cfg.blocks[ab].rsucc)
+            while st and not ok:
+                x = st.pop()
+                if x in seen:
+                    continue
+                seen.add(x)
+                cs = cut.get(x, ())
+                if x == bb and not any(ci < bi for ci in cs):
+                    ok = True
+                    break
+                if cs:
+                    continue
+                st.extend(f.cfg.blocks[x].rsucc)
+        if ok:
+            out.append(rhs)
     return out
